@@ -1026,8 +1026,73 @@ def vert_pages(st):
     return len(pages)
 
 
+# colour spaces selected through /ColorSpace resource names: the page and the form it invokes give the SAME name to
+# DIFFERENT spaces; sc takes as many operands as the space *this* resource dictionary gives the name (ISO 8.6.8, 7.8.3)
+CS_SPACES = ["DeviceGray", "DeviceRGB", "DeviceCMYK"]
+CS_COMPS = {"DeviceGray": (Fr(1, 4),), "DeviceRGB": (Fr(1, 4), Fr(1, 2), Fr(3, 4)), "DeviceCMYK": (0, Fr(1, 4), Fr(1, 2), 1)}
+CS_COMPS2 = {"DeviceGray": (Fr(3, 4),), "DeviceRGB": (1, 0, Fr(1, 2)), "DeviceCMYK": (1, Fr(1, 2), 0, Fr(1, 4))}
+
+
+def _cs_sc(space, comps=CS_COMPS):
+    return b"/CS0 cs " + b" ".join(gfx._tok_operand(x)[0] for x in comps[space]) + b" sc "
+
+
+def _fill_of(space, comps=CS_COMPS):
+    c = comps[space]
+    return (space, float(c[0]) if len(c) == 1 else tuple(float(x) for x in c))
+
+
+def csres_pages(st):
+    d = G.Doc()
+    wset = WIDTH_SETS[0]
+    fref = {k: d.add(font_dict(k, wset)) for k in ("A", "B")}
+    fonts = {"F1": fref["A"], "F2": fref["B"]}
+    show = lambda t: b"BT /F1 8 Tf (" + t + b") Tj ET "  # noqa: E731
+    pages, exps, descs = [], [], []
+    for X in CS_SPACES:
+        for Y in CS_SPACES:
+            form = d.add(G.Stream({"Type": G.N("XObject"), "Subtype": G.N("Form"), "BBox": [0, 0, 400, 400],
+                                   "Resources": {"Font": fonts, "ColorSpace": {"CS0": G.N(Y)}}}, _cs_sc(Y, CS_COMPS2) + show(b"C")))
+            res = {"Font": fonts, "XObject": {"Fm": form}, "ColorSpace": {"CS0": G.N(X)}}
+            for where in ("do-first", "do-between-cs-and-sc", "do-after-sc", "do-twice"):
+                if where == "do-first":
+                    prog = b"/Fm Do " + _cs_sc(X) + show(b"A")
+                elif where == "do-between-cs-and-sc":
+                    prog = b"/CS0 cs /Fm Do " + _cs_sc(X)[len(b"/CS0 cs "):] + show(b"A")
+                elif where == "do-after-sc":
+                    prog = _cs_sc(X) + b"/Fm Do " + show(b"A")
+                else:
+                    prog = b"/Fm Do " + _cs_sc(X) + show(b"A") + b"/Fm Do " + _cs_sc(X, CS_COMPS2) + show(b"B")
+                exp = [("C", _fill_of(Y, CS_COMPS2)), ("A", _fill_of(X))]
+                if where == "do-after-sc":
+                    exp = exp[::-1][:1] * 0 + [("C", _fill_of(Y, CS_COMPS2)), ("A", _fill_of(X))]
+                if where == "do-twice":
+                    exp = [("C", _fill_of(Y, CS_COMPS2)), ("A", _fill_of(X)), ("C", _fill_of(Y, CS_COMPS2)), ("B", _fill_of(X, CS_COMPS2))]
+                pages.append((prog, res))
+                exps.append(exp)
+                descs.append({"page_CS0": X, "form_CS0": Y, "where": where})
+                # the next page has no form and gives the name to yet another space: nothing of the previous page is left
+                Z = CS_SPACES[(CS_SPACES.index(X) + 1) % 3]
+                pages.append((_cs_sc(Z) + show(b"B"), {"Font": fonts, "ColorSpace": {"CS0": G.N(Z)}}))
+                exps.append([("B", _fill_of(Z))])
+                descs.append({"page_CS0": Z, "after": {"page_CS0": X, "form_CS0": Y, "where": where}})
+    data = gfx.pages_doc(pages, doc=d)
+    out = gfx.run_pages(data)
+    st.traces += 1
+    for exp, desc, (lt, exc) in zip(exps, descs, out):
+        obs = [(o["text"], o["fill"]) for o in observe(lt)] if exc is None else gfx.exc_sig(exc)
+        st.case(None, nontrivial=True, outcome=h64(repr(obs)))
+        if obs != exp:
+            sig = "C05/colour-space-resource-name:" + ("exception" if exc is not None else "after-form" if "after" in desc else desc["where"])
+            st.violation(sig, {"family": "csres", "desc": desc, "pdf": data if st.viol_counts[sig] < 1 else b""}, [list(e) for e in exp], obs,
+                         "fill colour of glyphs shown after '/CS0 cs ... sc' where page and form give /CS0 to different colour spaces")
+    if len(out) != len(pages):
+        st.violation("C05/csres:pages", {"family": "csres"}, len(pages), len(out), "page count")
+    return len(pages)
+
+
 def misc_shard(tier, st):
-    n = misc_pages(st) + vert_pages(st)
+    n = misc_pages(st) + vert_pages(st) + csres_pages(st)
     st.states += n + 1
     st.transitions += n
     st.add("misc_pages", n)
@@ -1109,13 +1174,18 @@ def jdec_events(v):
 
 
 def replay(case):
-    from mc.core import Stats
+    from mc.core import Stats, jdec
 
     if case.get("family") == "misc":
         st = Stats()
         misc_shard("quick", st)
         want = [gfx.ev_from_json(e) for e in case.get("events", [])]
         hits = [v for v in st.violations if [gfx.ev_from_json(e) for e in jdec_events(v)] == want] or st.violations
+        return [{"signature": v["signature"], "expected": repr(v["expected"]), "observed": repr(v["observed"])} for v in hits[:1]]
+    if case.get("family") == "csres":
+        st = Stats()
+        csres_pages(st)
+        hits = [v for v in st.violations if jdec(v["case"]).get("desc") == case.get("desc")] or st.violations
         return [{"signature": v["signature"], "expected": repr(v["expected"]), "observed": repr(v["observed"])} for v in hits[:1]]
     if case.get("family") == "leftover":
         st = Stats()
